@@ -103,6 +103,13 @@ def gen_tuples(ctx):
                     if not (N >= 2**63 and (K in (0, N) or K >= N - 1)):
                         continue
                 jobs.append(("Hypergeometric::new", "f64", [N, K, n], [str(N), str(K), str(n)]))
+    # valid triples with a large population whose mode is >= 10 after the reductions: the H2PE set-up (O(1), no factorial loop),
+    # on both sides of 2^32 and 2^53 where products of population sizes leave the exactly representable integers
+    for N in (2**20, 2**31 + 7, 2**32 - 1, 2**32 + 1, 2**33, 5 * 10**9, 2**40 + 3, 2**52 + 1, 2**53 + 2, 2**60 + 5):
+        for K in (N // 2, N // 3, N - N // 3, N // 2 + 1):
+            for n in (1000, 2**20 - 1, N // 2, N // 2 + 1, N - 1000):
+                if K <= N and n <= N:
+                    jobs.append(("Hypergeometric::new", "f64", [N, K, n], [str(N), str(K), str(n)]))
     return jobs
 
 
